@@ -955,6 +955,7 @@ def rule_templates_implement_minilanguage(cm, rep, rid, depth=3, width=2, scope=
             continue
         try:
             mod = ast.parse(text)
+            compile(text, '<emitted text>', 'exec', dont_inherit=True)       # compiled only (break outside loop, ...), never executed
         except SyntaxError as e:
             k = 'syntax:%s' % e.msg
             if k not in seen_problem:
